@@ -137,6 +137,7 @@ def model_spec(
     max_mets: int = 6,
     max_rxns: int = 9,
     max_genes: int = 6,
+    min_genes: int = 0,
     min_mets: int = 0,
     min_rxns: int = 0,
     palette: str = "general",
@@ -156,10 +157,10 @@ def model_spec(
     nm = draw(st.integers(max(min_mets, 2 if family == "pathway" else 0), max_mets))
     if ids == "plain":
         met_ids = plain_ids("M", nm)
-        gene_ids = plain_ids("g", draw(st.integers(0, max_genes))) if gprs else []
+        gene_ids = plain_ids("g", draw(st.integers(min_genes, max_genes))) if gprs else []
     else:
         met_ids = draw(st.lists(rich_id(), min_size=nm, max_size=nm, unique=True))
-        gene_ids = draw(st.lists(rich_id().filter(lambda s: s not in ("and", "or")), max_size=max_genes, unique=True)) if gprs else []
+        gene_ids = draw(st.lists(rich_id().filter(lambda s: s not in ("and", "or")), min_size=min_genes, max_size=max_genes, unique=True)) if gprs else []
     comps = ["c", "e"] if (exchange_rich or draw(st.booleans())) else ["c"]
     if rich_meta and draw(st.booleans()):
         comps = comps + [draw(st.sampled_from(["p", "m", "C_x", "nuc"]))]
